@@ -134,7 +134,9 @@ int32_t tls13ImportPublicValue(ssl_t *ssl,
 
             if (ssl->sec.eccKeyPub != NULL)
             {
-                psEccClearKey(ssl->sec.eccKeyPub);
+                /* A second key share for the same session (repeated
+                   extension, second ClientHello): release the first key */
+                psEccDeleteKey(&ssl->sec.eccKeyPub);
             }
 
             rc = psEccNewKey(ssl->hsPool, &ssl->sec.eccKeyPub, curve);
